@@ -10,7 +10,7 @@ from sx import Sym
 
 PROP = "C02"
 PROP_FILE = "C02_Eval"
-THEOREMS = ['c02_and_short_circuit', 'c02_or_short_circuit', 'c02_and_evaluated_operands', 'c02_or_evaluated_operands', 'c02_if', 'c02_binary_left_to_right', 'c02_eq_total', 'c02_arith_exact', 'c02_neg_exact', 'c02_arith_type_error', 'c02_in_entity', 'c02_in_entity_set', 'c02_in_set_with_nonentity', 'c02_has_absent_entity', 'c02_has_iff_access_succeeds', 'c02_is', 'c02_like']
+THEOREMS = ['c02_and_short_circuit', 'c02_or_short_circuit', 'c02_and_evaluated_operands', 'c02_or_evaluated_operands', 'c02_if', 'c02_binary_left_to_right', 'c02_eq_total', 'c02_arith_exact', 'c02_neg_exact', 'c02_arith_type_error', 'c02_in_entity', 'c02_in_entity_set', 'c02_in_set_with_nonentity', 'c02_has_absent_entity', 'c02_has_iff_access_succeeds', 'c02_is', 'c02_like', 'c02_eq_equivalence', 'c02_set_eq_same_members', 'c02_set_order_insensitive', 'c02_set_duplicate_insensitive', 'c02_set_operations', 'c02_set_mem_respects_eq']
 
 
 MANIFEST = {
